@@ -7,6 +7,7 @@ import (
 	"go/types"
 	"runtime"
 	"strings"
+	"sync"
 
 	"gosmt/smt"
 
@@ -392,16 +393,21 @@ func (w *Worker) callSSA(caller *frame, callpos token.Pos, fn *ssa.Function, arg
 		w.ex.noteIntrinsic(name)
 		return intr(fr, args)
 	}
+	// packages are built lazily; Build() is idempotent and waits for a build in progress
+	if fn.Pkg != nil {
+		ensureBuilt(fn.Pkg)
+	} else if fn.Origin() != nil && fn.Origin().Pkg != nil {
+		ensureBuilt(fn.Origin().Pkg)
+	} else if fn.Parent() != nil {
+		for p := fn.Parent(); p != nil; p = p.Parent() {
+			if p.Pkg != nil {
+				ensureBuilt(p.Pkg)
+				break
+			}
+		}
+	}
 	if fn.Blocks == nil {
-		// maybe the package has not been built yet
-		if fn.Pkg != nil {
-			fn.Pkg.Build()
-		} else if fn.Origin() != nil && fn.Origin().Pkg != nil {
-			fn.Origin().Pkg.Build()
-		}
-		if fn.Blocks == nil {
-			panic(engineError("no code for function: " + name))
-		}
+		panic(engineError("no code for function: " + name))
 	}
 	w.ex.noteFunc(fn)
 	fr.env = make(map[ssa.Value]Value, 16)
@@ -581,3 +587,13 @@ func (w *Worker) constValue(c *ssa.Const) Value {
 func (w *Worker) funcName(fn *ssa.Function) string { return strings.TrimSpace(fn.String()) }
 
 var traceFn = os.Getenv("GOSMT_TRACE")
+
+var builtPkgs sync.Map
+
+func ensureBuilt(p *ssa.Package) {
+	if _, ok := builtPkgs.Load(p); ok {
+		return
+	}
+	p.Build()
+	builtPkgs.Store(p, true)
+}
